@@ -2,6 +2,7 @@ import ScnVerif.Model.Inelastic
 import ScnVerif.Real.Basic
 import ScnVerif.Lemmas.Inelastic
 import ScnVerif.Lemmas.FloatGap
+import ScnVerif.Lemmas.InelasticRounding
 import Mathlib.Tactic.FieldSimp
 import Mathlib.Tactic.Ring
 import Mathlib.Tactic.Linarith
@@ -17,7 +18,8 @@ code obtains from `sc.to_unit(m_n/2, unit(E)·(unit(t)/unit(L))²)` are `energyC
 `speed m E = √(2E/m)`.
 -/
 namespace ScnVerif.Props.C05
-open ScnVerif ScnVerif.Inelastic ScnVerif.Lemmas.Inelastic ScnVerif.FloatGap
+open ScnVerif ScnVerif.Inelastic ScnVerif.Lemmas.Inelastic ScnVerif.FloatGap ScnVerif.Fp
+  ScnVerif.Lemmas.InelasticRounding
 
 /-! ## the fixed-energy leg -/
 
@@ -25,9 +27,9 @@ open ScnVerif ScnVerif.Inelastic ScnVerif.Lemmas.Inelastic ScnVerif.FloatGap
 for every choice of units -/
 theorem t0_is_flight_time (m sE st sL E L : ℝ) (hm : 0 < m) (hsE : 0 < sE) (hst : 0 < st) (hsL : 0 < sL)
     (hE : 0 < E) :
-    energyTransferT0 (Casts.id ℝ) (energyConstant (m / 2) sE st sL) E L * st
+    energyTransferT0 (Casts.id ℝ) (LenCast.id ℝ) (energyConstant (m / 2) sE st sL) E L * st
       = L * sL / speed m (E * sE) := by
-  simp only [energyTransferT0, energyConstant, Casts.id, trans_sqrt_real, speed]
+  simp only [energyTransferT0, energyConstant, Casts.id, LenCast.id, trans_sqrt_real, speed]
   have h1 : m / 2 / (sE * (st / sL * (st / sL))) / E = (sL / st) ^ 2 * (m / (2 * (E * sE))) := by
     field_simp
   have h2 : 2 * (E * sE) / m = (m / (2 * (E * sE)))⁻¹ := by field_simp
@@ -47,7 +49,7 @@ theorem direct_conserves_energy (m sE st sL1 sL2 tof L1 L2 Ei Ef : ℝ)
   have h0 := t0_is_flight_time m sE st sL1 Ei L1 hm hsE hst hsL1 hEi
   unfold directFromUnits
   rw [direct_unfold]
-  set t0 := energyTransferT0 (Casts.id ℝ) (energyConstant (m / 2) sE st sL1) Ei L1
+  set t0 := energyTransferT0 (Casts.id ℝ) (LenCast.id ℝ) (energyConstant (m / 2) sE st sL1) Ei L1
   have hδ : (tof - t0) * st = L2 * sL2 / speed m (Ef * sE) := by rw [sub_mul, ht, h0]; ring
   have hpos : 0 < (tof - t0) * st := by
     rw [hδ]; exact div_pos (mul_pos hL2 hsL2) (speed_pos hm (mul_pos hEf hsE))
@@ -63,7 +65,7 @@ theorem indirect_conserves_energy (m sE st sL1 sL2 tof L1 L2 Ei Ef : ℝ)
   have h0 := t0_is_flight_time m sE st sL2 Ef L2 hm hsE hst hsL2 hEf
   unfold indirectFromUnits
   rw [indirect_unfold]
-  set t0 := energyTransferT0 (Casts.id ℝ) (energyConstant (m / 2) sE st sL2) Ef L2
+  set t0 := energyTransferT0 (Casts.id ℝ) (LenCast.id ℝ) (energyConstant (m / 2) sE st sL2) Ef L2
   have hδ : (-t0 + tof) * st = L1 * sL1 / speed m (Ei * sE) := by rw [add_mul, ht, neg_mul, h0]; ring
   have hpos : 0 < (-t0 + tof) * st := by
     rw [hδ]; exact div_pos (mul_pos hL1 hsL1) (speed_pos hm (mul_pos hEi hsE))
@@ -93,7 +95,7 @@ theorem direct_value (m sE st sL1 sL2 tof L1 L2 Ei : ℝ)
   have h0 := t0_is_flight_time m sE st sL1 Ei L1 hm hsE hst hsL1 hEi
   unfold directFromUnits
   rw [direct_unfold]
-  set t0 := energyTransferT0 (Casts.id ℝ) (energyConstant (m / 2) sE st sL1) Ei L1
+  set t0 := energyTransferT0 (Casts.id ℝ) (LenCast.id ℝ) (energyConstant (m / 2) sE st sL1) Ei L1
   have hδ : (tof - t0) * st = tof * st - L1 * sL1 / speed m (Ei * sE) := by rw [sub_mul, h0]
   have hP : 0 < tof * st - L1 * sL1 / speed m (Ei * sE) := by linarith
   have hpos' : 0 < tof - t0 := (mul_pos_iff_of_pos_right hst).mp (hδ ▸ hP)
@@ -110,7 +112,7 @@ theorem indirect_value (m sE st sL1 sL2 tof L1 L2 Ef : ℝ)
   have h0 := t0_is_flight_time m sE st sL2 Ef L2 hm hsE hst hsL2 hEf
   unfold indirectFromUnits
   rw [indirect_unfold]
-  set t0 := energyTransferT0 (Casts.id ℝ) (energyConstant (m / 2) sE st sL2) Ef L2
+  set t0 := energyTransferT0 (Casts.id ℝ) (LenCast.id ℝ) (energyConstant (m / 2) sE st sL2) Ef L2
   have hδ : (-t0 + tof) * st = tof * st - L2 * sL2 / speed m (Ef * sE) := by
     rw [add_mul, neg_mul, h0]; ring
   have hP : 0 < tof * st - L2 * sL2 / speed m (Ef * sE) := by linarith
@@ -130,7 +132,7 @@ theorem direct_nan_iff (m sE st sL1 sL2 tof L1 L2 Ei : ℝ)
   have h0 := t0_is_flight_time m sE st sL1 Ei L1 hm hsE hst hsL1 hEi
   unfold directFromUnits
   rw [direct_unfold, ← h0]
-  set t0 := energyTransferT0 (Casts.id ℝ) (energyConstant (m / 2) sE st sL1) Ei L1
+  set t0 := energyTransferT0 (Casts.id ℝ) (LenCast.id ℝ) (energyConstant (m / 2) sE st sL1) Ei L1
   rw [mul_le_mul_iff_left₀ hst]
   constructor
   · intro h
@@ -148,7 +150,7 @@ theorem indirect_nan_iff (m sE st sL1 sL2 tof L1 L2 Ef : ℝ)
   have h0 := t0_is_flight_time m sE st sL2 Ef L2 hm hsE hst hsL2 hEf
   unfold indirectFromUnits
   rw [indirect_unfold, ← h0]
-  set t0 := energyTransferT0 (Casts.id ℝ) (energyConstant (m / 2) sE st sL2) Ef L2
+  set t0 := energyTransferT0 (Casts.id ℝ) (LenCast.id ℝ) (energyConstant (m / 2) sE st sL2) Ef L2
   rw [mul_le_mul_iff_left₀ hst]
   constructor
   · intro h
@@ -250,13 +252,13 @@ lengths — the quantity bounded by `1e12` in the two theorems above -/
 theorem scale_over_t0_sq (m sE st sL1 sL2 L1 L2 E : ℝ) (hm : 0 < m) (hsE : 0 < sE) (hst : 0 < st)
     (hsL1 : 0 < sL1) (hsL2 : 0 < sL2) (hL1 : 0 < L1) (hE : 0 < E) :
     energyConstant (m / 2) sE st sL2 * (L2 * L2) /
-        (energyTransferT0 (Casts.id ℝ) (energyConstant (m / 2) sE st sL1) E L1
-          * energyTransferT0 (Casts.id ℝ) (energyConstant (m / 2) sE st sL1) E L1)
+        (energyTransferT0 (Casts.id ℝ) (LenCast.id ℝ) (energyConstant (m / 2) sE st sL1) E L1
+          * energyTransferT0 (Casts.id ℝ) (LenCast.id ℝ) (energyConstant (m / 2) sE st sL1) E L1)
       = E * ((L2 * sL2) / (L1 * sL1)) ^ 2 := by
   have h0 := t0_is_flight_time m sE st sL1 E L1 hm hsE hst hsL1 hE
   have hv := speed_pos hm (mul_pos hE hsE)
   have hv2 := speed_sq hm (mul_pos hE hsE)
-  set t0 := energyTransferT0 (Casts.id ℝ) (energyConstant (m / 2) sE st sL1) E L1
+  set t0 := energyTransferT0 (Casts.id ℝ) (LenCast.id ℝ) (energyConstant (m / 2) sE st sL1) E L1
   have ht0 : t0 = L1 * sL1 / speed m (E * sE) / st := by rw [eq_div_iff hst.ne', h0]
   generalize speed m (E * sE) = v at *
   rw [ht0]
@@ -265,11 +267,90 @@ theorem scale_over_t0_sq (m sE st sL1 sL2 L1 L2 E : ℝ) (hm : 0 < m) (hsE : 0 <
   field_simp at hv2
   nlinarith [hv2]
 
+/-! ## rounding under the standard model, away from the boundary -/
+
+/-- Standard model of rounding, direct geometry, away from the boundary: for the neutron of
+`direct_conserves_energy`, a floating-point evaluation in the operation order of the code — computed `t0h` and
+`sh` for `t0` and `scale`, then `δh = fl(t − t0h)`, `fl(δh²)`, `fl(sh/·)`, `fl(Ei − ·)`, each with relative error
+`≤ u` — returns `Ei − Ef` up to `u·(|Ei|+|Ef|) + (1+u)·5w/(1−5w)·|Ef|`, where the condition-aware level `w`
+dominates `u`, the relative error of `sh`, and `(1+u)|t0h − t0|/(t − t0) + u` (see `w_of_t0_relErr`:
+`w = (1+u)·(k u/(1−k u))·t0/(t−t0) + u` for `k` roundings in `t0h`). -/
+theorem direct_rounding_conservation (m sE st sL1 sL2 tof L1 L2 Ei Ef u w t0h sh d1 d2 d3 d4 : ℝ)
+    (hm : 0 < m) (hsE : 0 < sE) (hst : 0 < st) (hsL1 : 0 < sL1) (hsL2 : 0 < sL2)
+    (hL2 : 0 < L2) (hEi : 0 < Ei) (hEf : 0 < Ef)
+    (ht : tof * st = L1 * sL1 / speed m (Ei * sE) + L2 * sL2 / speed m (Ef * sE))
+    (hu0 : 0 ≤ u) (huw : u ≤ w) (hw : 5 * w < 1)
+    (hd1 : |d1| ≤ u) (hd2 : |d2| ≤ u) (hd3 : |d3| ≤ u) (hd4 : |d4| ≤ u)
+    (h0 : |t0h - energyTransferT0 (Casts.id ℝ) (LenCast.id ℝ) (energyConstant (m / 2) sE st sL1) Ei L1| * (1 + u)
+        + u * (tof - energyTransferT0 (Casts.id ℝ) (LenCast.id ℝ) (energyConstant (m / 2) sE st sL1) Ei L1)
+      ≤ w * (tof - energyTransferT0 (Casts.id ℝ) (LenCast.id ℝ) (energyConstant (m / 2) sE st sL1) Ei L1))
+    (hs : RelErr w 1 sh (energyConstant (m / 2) sE st sL2 * (L2 * L2))) :
+    |(Ei - sh / ((tof - t0h) * (1 + d1) * ((tof - t0h) * (1 + d1)) * (1 + d2)) * (1 + d3)) * (1 + d4) - (Ei - Ef)|
+      ≤ u * (|Ei| + |Ef|) + (1 + u) * (5 * w / (1 - 5 * w)) * |Ef| := by
+  have h00 := t0_is_flight_time m sE st sL1 Ei L1 hm hsE hst hsL1 hEi
+  set t0 := energyTransferT0 (Casts.id ℝ) (LenCast.id ℝ) (energyConstant (m / 2) sE st sL1) Ei L1
+  have hδ : (tof - t0) * st = L2 * sL2 / speed m (Ef * sE) := by rw [sub_mul, ht, h00]; ring
+  have hpos : 0 < (tof - t0) * st := by
+    rw [hδ]; exact div_pos (mul_pos hL2 hsL2) (speed_pos hm (mul_pos hEf hsE))
+  have hpos' : 0 < tof - t0 := (mul_pos_iff_of_pos_right hst).mp hpos
+  have hV := scale_over_delta_sq m sE st sL2 L2 Ef _ hm hsE hst hsL2 hL2 hEf hδ
+  have := direct_rounding_core (Ei := Ei) hu0 huw hw hpos' hd1 hd2 hd3 hd4 h0 hs
+  rwa [hV] at this
+
+/-- the same for the indirect geometry (`δh = fl(−t0h + t)`, result `fl(fl(sh/fl(δh²)) − Ef)`) -/
+theorem indirect_rounding_conservation (m sE st sL1 sL2 tof L1 L2 Ei Ef u w t0h sh d1 d2 d3 d4 : ℝ)
+    (hm : 0 < m) (hsE : 0 < sE) (hst : 0 < st) (hsL1 : 0 < sL1) (hsL2 : 0 < sL2)
+    (hL1 : 0 < L1) (hEi : 0 < Ei) (hEf : 0 < Ef)
+    (ht : tof * st = L1 * sL1 / speed m (Ei * sE) + L2 * sL2 / speed m (Ef * sE))
+    (hu0 : 0 ≤ u) (huw : u ≤ w) (hw : 5 * w < 1)
+    (hd1 : |d1| ≤ u) (hd2 : |d2| ≤ u) (hd3 : |d3| ≤ u) (hd4 : |d4| ≤ u)
+    (h0 : |t0h - energyTransferT0 (Casts.id ℝ) (LenCast.id ℝ) (energyConstant (m / 2) sE st sL2) Ef L2| * (1 + u)
+        + u * (-energyTransferT0 (Casts.id ℝ) (LenCast.id ℝ) (energyConstant (m / 2) sE st sL2) Ef L2 + tof)
+      ≤ w * (-energyTransferT0 (Casts.id ℝ) (LenCast.id ℝ) (energyConstant (m / 2) sE st sL2) Ef L2 + tof))
+    (hs : RelErr w 1 sh (energyConstant (m / 2) sE st sL1 * (L1 * L1))) :
+    |(sh / ((-t0h + tof) * (1 + d1) * ((-t0h + tof) * (1 + d1)) * (1 + d2)) * (1 + d3) - Ef) * (1 + d4) - (Ei - Ef)|
+      ≤ u * (|Ef| + |Ei|) + (1 + u) * (5 * w / (1 - 5 * w)) * |Ei| := by
+  have h00 := t0_is_flight_time m sE st sL2 Ef L2 hm hsE hst hsL2 hEf
+  set t0 := energyTransferT0 (Casts.id ℝ) (LenCast.id ℝ) (energyConstant (m / 2) sE st sL2) Ef L2
+  have hδ : (-t0 + tof) * st = L1 * sL1 / speed m (Ei * sE) := by rw [add_mul, ht, neg_mul, h00]; ring
+  have hpos : 0 < (-t0 + tof) * st := by
+    rw [hδ]; exact div_pos (mul_pos hL1 hsL1) (speed_pos hm (mul_pos hEi hsE))
+  have hpos' : 0 < -t0 + tof := (mul_pos_iff_of_pos_right hst).mp hpos
+  have hV := scale_over_delta_sq m sE st sL1 L1 Ei _ hm hsE hst hsL1 hL1 hEi hδ
+  have := indirect_rounding_core (Ef := Ef) hu0 huw hw hpos' hd1 hd2 hd3 hd4 h0 hs
+  rwa [hV] at this
+
+/-- the condition-aware level is explicit: with `k` roundings in the computed `t0` (the code has at most 5:
+narrowing of the constant, division, square root, narrowing of the length, product) the hypothesis `h0` of the two
+theorems above holds for `w = (1+u)·(k u/(1−k u))·t0/(t−t0) + u` -/
+theorem rounding_level_of_t0 {u tof t0 t0h : ℝ} {k : ℕ} (hu0 : 0 ≤ u) (hu1 : u < 1) (hk : (k : ℝ) * u < 1)
+    (ht0 : 0 < t0) (hδ : 0 < tof - t0) (h : RelErr u k t0h t0) :
+    |t0h - t0| * (1 + u) + u * (tof - t0)
+      ≤ ((1 + u) * (k * u / (1 - k * u)) * (t0 / (tof - t0)) + u) * (tof - t0) :=
+  w_of_t0_relErr hu0 hu1 hk ht0 hδ h
+
+/-- non-vacuity of the rounding theorems: exact arithmetic (`u = 0`, all `d = 0`, `t0h = t0`, `sh = s`) meets
+every hypothesis with `w = 0` -/
+example : RelErr (0 : ℝ) 1 (3 : ℝ) 3 ∧ |(0 : ℝ)| ≤ 0 ∧ (5 * (0 : ℝ) < 1) :=
+  ⟨⟨1, by ring, by simp, by simp⟩, by simp, by norm_num⟩
+
 /-! ## dtype rule -/
 
 /-- the result is single precision iff both the energy and the time-of-flight are -/
 theorem common_dtype_f32_iff (a b : DType) : commonDType a b = .f32 ↔ a = .f32 ∧ b = .f32 := by
   cases a <;> cases b <;> decide
+
+/-- the dtypes of the lengths do not enter: whatever `L1` and `L2` are (float32 lengths with a float64
+time-of-flight give float64; float64 lengths with float32 energy and tof are narrowed and give float32),
+the result is single precision iff both the energy and the time-of-flight are -/
+theorem result_dtype_lengths (e t l1 l2 : DType) :
+    (energyTransferDType e t l1 l2 = .f32 ↔ e = .f32 ∧ t = .f32)
+      ∧ (energyTransferDType e t l1 l2 = .f32 ∨ energyTransferDType e t l1 l2 = .f64)
+      ∧ ∀ l1' l2', energyTransferDType e t l1' l2' = energyTransferDType e t l1 l2 := by
+  refine ⟨?_, ?_, fun _ _ => rfl⟩
+  · exact common_dtype_f32_iff e t
+  · show commonDType e t = .f32 ∨ commonDType e t = .f64
+    cases e <;> cases t <;> decide
 
 /-! ## non-vacuity -/
 
